@@ -60,6 +60,10 @@ CHECKS = {
    text="For each of SM4-GCM, AES-GCM, SM4-CCM (one-shot), SM4-GCM / SM4-CBC+SM3-HMAC / SM4-CTR+SM3-HMAC (streaming, generated chunking): 160 (quick) / 2000 (thorough) instances with AAD 0..24, message 0..48, every tag length; the neighbourhood is complete per instance, sampled over keys/nonces/lengths.",
    note="Multi-bit forgeries only via C04's model agreement; accidental tag collision probability <= 2^-32 per neighbour (CCM 4-byte tags). Known finding: the two SM3-HMAC compositions do not authenticate the IV (format pinned by the repository's own test).",
    design="4/C05"),
+ "C19": dict(level="exploration", technique="property-based testing (Hypothesis) over a catalogue of secret-handling operations with file descriptors 1/2 captured; the captured bytes are scanned for every 8-byte window of every secret the harness knows (scripted entropy makes ephemeral secrets known) in raw/hex/separated-hex/base64 form",
+   text="Generated instances of SM2/SM9/PKCS#8 operations (success and error paths) and of all three handshakes on both roles (success, untrusted server, rejected client) plus application data; any occurrence of a private scalar, nonce, password, plaintext, pre-master/master secret, key block, TLS 1.3 IV or 32-byte/>=40-byte entropy draw in the output is a violation. Exploration of the catalogue, not of all code paths.",
+   note="Default build configuration only. TLS 1.3 raw traffic keys are not stored in TLS_CONNECT (only their key schedule), they are covered through the IVs printed next to them. Windows with < 4 distinct byte values are ignored.",
+   design="4/C19"),
 }
 
 NOT_YET = {
